@@ -216,6 +216,7 @@ impl TwinEngine {
             done: r1.done.clone(),
             steps: r1.steps,
             desynced: false,
+            blind: false,
         };
         if self.kind == TwinKind::SaveLoad {
             r2.m.reset_allocator();
